@@ -661,6 +661,17 @@ func elemsFor(a Array, from, to int, last bool) uint64 {
 
 // DrawSplits cuts payload[from:to] into data-event sizes.
 func DrawSplits(t *tape.Tape, a Array, from, to int, elementAligned bool) []int {
+	out := drawSplits(t, a, from, to, elementAligned)
+	// a producer may also flush nothing: an empty data event before the chunk's
+	// last piece carries no data and must change nothing
+	if len(out) > 0 && t.Chance("split-empty-event", 1, 5) {
+		at := t.Intn("split-empty-at", len(out))
+		out = append(out[:at:at], append([]int{0}, out[at:]...)...)
+	}
+	return out
+}
+
+func drawSplits(t *tape.Tape, a Array, from, to int, elementAligned bool) []int {
 	bytes := to - from
 	if bytes == 0 {
 		return nil
